@@ -165,7 +165,71 @@ var stringMenu = []string{
 	"SHA256", "sha-256", "MD7", "OTHER", "other", "DESCRIBES", "describes", "CONTAINS ", "library", "LIBRARY", "operating-system", "1.5", "SPDX-2.3", "CycloneDX",
 }
 
+// derived returns the near-misses of a valid member value: every proper prefix and suffix that ends /
+// starts at a separator (with and without the separator), every prefix of <=3 characters, the value
+// doubled, with a trailing separator, with one more segment, and in the other letter case.
+func derived(v string) []string {
+	seen := map[string]bool{v: true}
+	var out []string
+	add := func(s string) {
+		if !seen[s] {
+			seen[s] = true
+			out = append(out, s)
+		}
+	}
+	const seps = ".:-/@ T+_;,=#?()"
+	r := []rune(v)
+	for i := range r {
+		if i > 0 && i <= 3 {
+			add(string(r[:i]))
+		}
+		if strings.ContainsRune(seps, r[i]) {
+			add(string(r[:i]))
+			add(string(r[:i+1]))
+			add(string(r[i:]))
+			add(string(r[i+1:]))
+		}
+	}
+	add(v + v)
+	add(strings.ToUpper(v))
+	add(strings.ToLower(v))
+	for _, s := range []string{".", ":", "-", "/", ".1", ":x", " "} {
+		add(v + s)
+		add(s + v)
+	}
+	return out
+}
+
 func stringValues(c *engine.Ctx, name string, root *jsonfault.Node, paths []jsonfault.Path, labels []string) {
+	c.Group(name + "-string-derived")
+	nd := 0
+	for pi := range paths {
+		par := root
+		for _, i := range paths[pi][:len(paths[pi])-1] {
+			par = par.Elems[i]
+		}
+		el := par.Elems[paths[pi][len(paths[pi])-1]]
+		if el.Kind != jsonfault.Scalar || !strings.HasPrefix(el.Raw, `"`) {
+			continue
+		}
+		var orig string
+		if json.Unmarshal([]byte(el.Raw), &orig) != nil {
+			continue
+		}
+		for _, dv := range derived(orig) {
+			pi, dv := pi, dv
+			nd++
+			c.Case(func() any { return map[string]string{"base": name, "path": labels[pi], "original": orig, "string": dv} }, func(t *engine.T) *engine.Violation {
+				rb, _ := json.Marshal(dv)
+				raw := string(rb)
+				f := jsonfault.Fault{Name: "string", Apply: func(p *jsonfault.Node, i int) { p.Elems[i] = &jsonfault.Node{Raw: raw} }}
+				in, _ := jsonfault.Mutate(root, []jsonfault.Path{paths[pi]}, []jsonfault.Fault{f})
+				t.State(fmt.Sprintf("%s|%s|derived|%s", name, labels[pi], dv))
+				return probe(t, []byte(in), false)
+			})
+		}
+	}
+	c.Bound(name+"-string-derived", fmt.Sprintf("%d near-misses of the members' own valid values (separator-aligned prefixes and suffixes, short prefixes, doubled, extended, case-flipped)", nd))
 	c.Group(name + "-string-values")
 	n := 0
 	for pi := range paths {
